@@ -27,7 +27,9 @@ CONSTANTS
   PartNums,     \* part numbers used by multipart operations
   PartBodies,   \* body atoms of parts
   MaxUploads,   \* bound on upload ids issued
-  MaxList       \* longest part list of a Complete request
+  MaxList,      \* longest part list of a Complete request
+  BadBuckets    \* names that must never be buckets (internal storage names, '.', '..'): every operation
+                \* addressed to them is refused and changes nothing (C10)
 
 \* ghost: the (bucket,key)s that once held an object and hold none now.  It
 \* does not influence any action; it only refines the VIEW so that the
@@ -43,6 +45,15 @@ KeySet ==
     [] KeySetName = "ab"    -> {<<97>>, <<98>>}
     [] KeySetName = "nest"  -> {<<97>>, <<100, 47, 120>>, <<100, 47, 121>>}     \* a, d/x, d/y
     [] KeySetName = "nest2" -> {<<97>>, <<100, 47, 120>>}                       \* a, d/x
+    \* C10: hostile but canonical keys (no '.', '..' or empty path segments): leading dot, backslash,
+    \* percent-encoded bytes, names of the backends' internal storage, a key that looks like "otherbucket/key"
+    [] KeySetName = "hostile1" -> {<<46, 104>>, <<97, 92, 98>>, <<97, 37, 50, 70, 98>>}                     \* .h  a\b  a%2Fb
+    [] KeySetName = "hostile2" -> {<<95, 109, 101, 116, 97>>, <<109, 101, 116, 97, 100, 97, 116, 97, 47, 120>>,
+                                   <<98, 107, 116, 50, 47, 97>>}                                            \* _meta  metadata/x  bkt2/a
+    [] KeySetName = "hostile3" -> {<<98, 117, 99, 107, 101, 116, 115>>, <<98, 117, 99, 107, 101, 116, 47, 98, 107, 116, 49>>,
+                                   <<97>>}                                                                  \* buckets  bucket/bkt1  a
+    \* non-canonical keys (key-value backends keep them apart as byte strings)
+    [] KeySetName = "dots"     -> {<<46>>, <<46, 46>>, <<97, 47, 46, 46, 47, 98>>, <<98>>, <<97, 47, 47, 98>>}  \* .  ..  a/../b  b  a//b
     [] KeySetName = "coll"  -> {<<100, 47, 120>>, <<100, 95, 120>>, <<100, 92, 120>>}            \* d/x, d_x, d\x
     [] KeySetName = "list"  -> {<<97>>, <<97, 47, 49>>, <<97, 45, 98>>, <<98>>} \* a, a/1, a-b, b
 
@@ -71,6 +82,8 @@ BodySet == {<<x>> : x \in Bodies} \cup (IF WithEmpty THEN {<<>>} ELSE {})
 NextVid(s) == "v" \o ToString(Cardinality(s.vids) + 1)
 NextUid(s) == "u" \o ToString(Cardinality(s.uids) + 1)
 NoMeta == <<>>
+ListOp(b, d) == [op |-> "ListObjects", b |-> b, v2 |-> FALSE, prefix |-> <<>>, delim |-> d,
+                 max |-> 0, marker |-> <<>>, hasMarker |-> FALSE]
 MetaA == [m1 |-> "A"]
 MetaB == [ct |-> "T", ce |-> "E", cd |-> "D", m2 |-> "B"]
 
@@ -154,13 +167,25 @@ MpOps(s) ==
         THEN {[op |-> "ListUploads", b |-> b, prefix |-> <<>>, delim |-> d, max |-> 0]
                 : b \in Buckets \cap s.mpb, d \in {<<>>, <<47>>}} ELSE {})
 
+\* ---- C10: operations addressed to names that are a backend's own storage ----
+BadOps(s) ==
+  IF BadBuckets = {} THEN {} ELSE
+     {[op |-> "CreateBucket", b |-> b, invalid |-> TRUE] : b \in BadBuckets}
+\cup {[op |-> "DeleteBucket", b |-> b] : b \in BadBuckets}
+\cup {[op |-> "HeadBucket", b |-> b] : b \in BadBuckets}
+\cup {[op |-> "PutObject", b |-> b, k |-> k, body |-> <<"x2">>, meta |-> NoMeta, vid |-> ""]
+        : b \in BadBuckets, k \in KeySet \cup {<<98, 117, 99, 107, 101, 116, 47, 98, 107, 116, 49>>}}   \* (incl. key bucket/bkt1)
+\cup {[op |-> "GetObject", b |-> b, k |-> k] : b \in BadBuckets, k \in KeySet \cup {<<98, 117, 99, 107, 101, 116, 47, 98, 107, 116, 49>>}}
+\cup {[op |-> "DeleteObject", b |-> b, k |-> k, vid |-> ""] : b \in BadBuckets, k \in KeySet \cup {<<98, 117, 99, 107, 101, 116, 47, 98, 107, 116, 49>>}}
+\cup {ListOp(b, <<>>) : b \in BadBuckets}
+
 VidBound(s, op) ==
   (op.op \in {"PutObject", "PostObject", "CopyObject", "DeleteObject", "DeleteMulti"} /\ HasB(s, op.b) /\ Enabled(s, op.b))
      => Cardinality(s.vids) < MaxVids
 
 Next ==
   /\ MaxDepth = 0 \/ Len(hist) < MaxDepth
-  /\ \E op \in Ops(st) \cup MpOps(st) :
+  /\ \E op \in Ops(st) \cup MpOps(st) \cup BadOps(st) :
        /\ VidBound(st, op)
        /\ \E res \in Step(st, Cfg, op) :
             /\ st' = res.st
@@ -177,8 +202,6 @@ View == <<st, ghost>>
 \* client can observe; the expected replies are computed by Step itself ----
 TheReply(s, op) == (CHOOSE res \in Step(s, Cfg, op) : TRUE).r
 WithReply(s, ops) == [i \in 1..Len(ops) |-> [op |-> ops[i], r |-> TheReply(s, ops[i])]]
-ListOp(b, d) == [op |-> "ListObjects", b |-> b, v2 |-> FALSE, prefix |-> <<>>, delim |-> d,
-                 max |-> 0, marker |-> <<>>, hasMarker |-> FALSE]
 AuditOps(s) ==
   LET present == SetToSeq({b \in Buckets : HasB(s, b)})
       absent  == SetToSeq({b \in Buckets : ~HasB(s, b)})
@@ -211,6 +234,36 @@ Emit == PrintT(ToJson([h |-> hist',
 \* the last step and the audit of the state after it
 EmitCrash == hist'[Len(hist')].op.op \in Mutating =>
                PrintT(ToJson([h |-> hist', a0 |-> Audit(st), a |-> Audit(st')]))
+\* ---- C10: path-like keys on the fs backends.  A key with '.', '..' or empty segments may be refused
+\* or aliased to another key OF THE SAME BUCKET; whatever happens, every other bucket and every key
+\* that is not an alias stays as it was and the server keeps answering.  For every reachable state
+\* and every such operation one tour is printed: the history, the operation (any complete reply is
+\* admissible), and an audit of all buckets' canary keys, the bucket list and the other buckets' listings.
+EscapeKeys == { <<46, 46>>, <<46, 46, 47, 120>>, <<46, 46, 47, 98, 107, 116, 50, 47, 97>>,          \* ..  ../x  ../bkt2/a
+                <<122, 47, 46, 46, 47, 46, 46, 47, 98, 107, 116, 50, 47, 97>>,                        \* z/../../bkt2/a
+                <<46, 47, 122>>, <<122, 47, 46, 47, 121>>, <<122, 47, 47, 121>>, <<47, 122>>,         \* ./z  z/./y  z//y  /z
+                <<46, 46, 47, 46, 46, 47, 109, 101, 116, 97, 100, 97, 116, 97, 47, 98, 107, 116, 50, 47, 120>>,  \* ../../metadata/bkt2/x
+                <<46, 46, 92, 120>>, <<46>> }                                                         \* ..\x  .
+AnyReply == [st |-> 0, code |-> "*"]
+EscapeOps ==
+  UNION {{ [op |-> "PutObject", b |-> b, k |-> e, body |-> <<"x2">>, meta |-> NoMeta, vid |-> ""],
+           [op |-> "GetObject", b |-> b, k |-> e], [op |-> "HeadObject", b |-> b, k |-> e],
+           [op |-> "DeleteObject", b |-> b, k |-> e, vid |-> ""],
+           [op |-> "DeleteMulti", b |-> b, objs |-> <<[k |-> e, vid |-> ""]>>],
+           [op |-> "CopyObject", sb |-> b, sk |-> e, b |-> b, k |-> <<122, 122>>, meta |-> NoMeta],
+           [op |-> "CopyObject", sb |-> b, sk |-> <<97>>, b |-> b, k |-> e, meta |-> NoMeta] }
+          : b \in Buckets, e \in EscapeKeys}
+EscapeAuditOps(s, b) ==
+  LET present == SetToSeq({x \in Buckets : HasB(s, x)})
+      keys == SetToSeq(KeySet) IN
+  <<[op |-> "ListBuckets"]>>
+  \o Flatten([i \in 1..Len(present) |->
+        [j \in 1..Len(keys) |-> [op |-> "GetObject", b |-> present[i], k |-> keys[j]]]
+        \o (IF present[i] # b THEN <<ListOp(present[i], <<>>), ListOp(present[i], <<47>>)>> ELSE <<>>)])
+EmitEscape ==
+  \A o \in EscapeOps :
+     PrintT(ToJson([h |-> Append(hist, [op |-> o, r |-> AnyReply]), a |-> WithReply(st, EscapeAuditOps(st, o.b))]))
+
 \* for walk recording: the history and the projection of the state it reaches,
 \* one line per distinct state (printed when the state is first reached)
 EmitState == PrintT(ToJson([h |-> hist, fin |-> Snap(st)]))      \* an INVARIANT: once per distinct state
